@@ -247,3 +247,55 @@ fn read_counter_step() {
     assert_eq!(c.verif_trip(), 0);
     assert!(c.fill_buf().is_ok());
 }
+
+//------------ hash attribute text ------------------------------------------------
+
+fn hexval(c: u8) -> Option<u8> {
+    match c {
+        b'0'..=b'9' => Some(c - b'0'),
+        b'a'..=b'f' => Some(c - b'a' + 10),
+        b'A'..=b'F' => Some(c - b'A' + 10),
+        _ => None,
+    }
+}
+
+/// @tier quick thorough
+/// @fn rpki::rrdp::Hash::from_str
+/// @bounds every 64-octet ASCII string (all 64 octets symbolic, below 0x80);
+///   the concrete lengths 0, 63 and 65 for the length rule; unwind 66
+/// @says the hash attribute of publish / withdraw / snapshot / delta
+///   elements parses exactly when it consists of 64 hexadecimal digits (in
+///   either case) and then denotes those 32 octets; anything else is an
+///   error, never a panic
+/// @out non-ASCII text (multi-byte characters), the Display side (core::fmt)
+#[kani::proof]
+#[kani::unwind(66)]
+fn hash_text_is_64_hex_digits() {
+    use std::str::FromStr;
+    let raw: [u8; 64] = kani::any();
+    let mut i = 0;
+    let mut all_hex = true;
+    while i < 64 {
+        kani::assume(raw[i] < 0x80);
+        if hexval(raw[i]).is_none() { all_hex = false; }
+        i += 1;
+    }
+    let s = unsafe { std::str::from_utf8_unchecked(&raw[..]) };
+    let res = rpki::rrdp::Hash::from_str(s);
+    kani::cover!(res.is_ok());
+    kani::cover!(res.is_err());
+    match res {
+        Ok(h) => {
+            assert!(all_hex);
+            let k: usize = kani::any();
+            kani::assume(k < 32);
+            let want = (hexval(raw[2 * k]).unwrap() << 4)
+                | hexval(raw[2 * k + 1]).unwrap();
+            assert!(h.as_slice()[k] == want);
+        }
+        Err(_) => assert!(!all_hex),
+    }
+    assert!(rpki::rrdp::Hash::from_str("").is_err());
+    let s63 = unsafe { std::str::from_utf8_unchecked(&raw[..63]) };
+    assert!(rpki::rrdp::Hash::from_str(s63).is_err());
+}
